@@ -14,7 +14,7 @@ Definition spec_class (c : N) : cls :=
   | 7 => CSet SWAP_BG_FG            | 27 => CClr SWAP_BG_FG
   | 8 => CSet VISIBILITY            | 28 => CClr VISIBILITY
   | 9 => CSet CROSSED_OUT           | 29 => CClr CROSSED_OUT
-  | 10 | 11 | 12 | 13 | 14 | 15 | 16 | 17 | 18 | 19 | 20 => CSet FONT_TYPE   (* 10 selects the primary font *)
+  | 11 | 12 | 13 | 14 | 15 | 16 | 17 | 18 | 19 | 20 => CSet FONT_TYPE       | 10 => CClr FONT_TYPE   (* 10 = primary font *)
   | 26 => CSet SPACING              | 50 => CClr SPACING
   | 51 | 52 => CSet BOXING          | 54 => CClr BOXING
   | 53 => CSet OVERLINE             | 55 => CClr OVERLINE
